@@ -16,7 +16,7 @@ MIN_DECIDED = {'quick': 150, 'thorough': 1500}
 NEEDS_HOOK = True
 CASE_TIMEOUT = {'quick': 240, 'thorough': 900}
 ASSUMPTIONS = ['ComplexWatson/ComplexBingham.log_pdf are documented for unit-norm input: they get unit-modulus gains directly and full gains through every entry point that projects (fit, predict, mixture trainers)']
-GK = ['iid', 'ramp', 'alternate', 'extreme_one']
+GK = ['iid', 'ramp', 'alternate', 'extreme_one', 'near_one']
 
 
 def plan(tier, seed):
@@ -43,7 +43,7 @@ def plan(tier, seed):
             if kind in ('gmm',) or (kind == 'gcacgmm' and False):
                 continue
             cases.append(dict(lane='mixture', kind=kind, cls='gauss', K=K, N=N, D=D, lead=lead, init=pick(['dirichlet:1', 'blur:0.3', 'onehot', 'num_classes']),
-                              iters=iters, opts=o, gain=pick(GK), decades=float(pick([100, 100, 60, 30])), stream=stream, rs=[seed, 4, i]))
+                              iters=iters, opts=o, gain=pick(GK), decades=float(pick([100, 100, 60, 30])), stream=stream, layout=pick(['c', 'c', 'tview', 'f']), rs=[seed, 4, i]))
             i += 1
     m = S(tier, 25, 250)
     for fam in ('cacg', 'watson', 'bingham', 'vmf'):
@@ -60,9 +60,25 @@ def run_case(case, R):
         (run_mixture if case['lane'] == 'mixture' else run_dist)(case, R)
 
 
+def near_one(rng, shape, real_positive):
+    mag = 1 + 5e-6 * rng.uniform(-1, 1, size=shape)
+    return mag if real_positive else mag * np.exp(2j * np.pi * rng.uniform(size=shape))
+
+
 def scaled_data(s, case, rng):
     d = dict(s.data)
     y = s.data['y']
+    if case['gain'] == 'near_one':
+        # (almost) unit-norm observations with gains within 5e-6 of one: "already normalised" shortcuts take this path
+        if case['stream'] == 'embedding':
+            s.data['e'] = oracles.unit(s.data['e']); d['e'] = s.data['e']
+            g = near_one(rng, s.data['e'].shape[:-1], True)
+            d['e'] = s.data['e'] * g[..., None]
+            return d, g
+        s.data['y'] = oracles.unit(y).astype(y.dtype); y = s.data['y']; d['y'] = y
+        g = near_one(rng, y.shape[:-1], s.kind in models.REAL)
+        d['y'] = y * g[..., None]
+        return d, g
     if case['stream'] == 'embedding':
         g = gen.gains(rng, s.data['e'].shape[:-1], decades=case['decades'], kind=case['gain'], real_positive=True)
         d['e'] = s.data['e'] * g[..., None]
@@ -164,7 +180,7 @@ def run_mixture(case, R):
     if l1 is not None and np.isfinite(l1) and np.isfinite(l2):
         judge('C04.posterior', abs(l1 - l2), 1e-9 * max(1, abs(l1)), 'll', 'log_likelihood/cacgmm', f'CACGMM.log_likelihood changes from {l1} to {l2} under rescaling')
     spans = np.log10(np.abs(g).max() / np.abs(g).min())
-    if spans >= 50:
+    if spans >= 50 or case['gain'] == 'near_one':
         R.mark_nontrivial('mixture', kind, case['stream'], case['gain'], case['opts'], s.K, s.D, case['lead'])
     R.sample(dict(lane='mixture', kind=kind, stream=case['stream'], gain=case['gain'], decades_spanned=float(spans), posterior_dev=dev, param_ratio=w, opts=case['opts']))
 
@@ -180,7 +196,11 @@ def run_dist(case, R):
     else:
         cov = gen.hpd(rng, D, cond=20.0, lead=lead)
         y = np.einsum('...ab,...nb->...na', np.linalg.cholesky(cov), gen.cnormal(rng, (*lead, N, D)))
-    g = gen.gains(rng, (*lead, N), decades=case['decades'], kind=case['gain'], real_positive=real)
+    if case['gain'] == 'near_one':
+        y = oracles.unit(y)
+        g = near_one(rng, (*lead, N), real)
+    else:
+        g = gen.gains(rng, (*lead, N), decades=case['decades'], kind=case['gain'], real_positive=real)
     y2 = y * g[..., None]
     sal = rng.uniform(0.1, 1, size=(*lead, N)) if case['saliency'] else None
     # trainers ---------------------------------------------------------------------------------------------
@@ -221,6 +241,6 @@ def run_dist(case, R):
     dv = float(np.abs(np.asarray(a) - np.asarray(b)).max())
     R.check('C04.logpdf', dv <= 1e-9 * (1 + float(np.abs(a).max())), f'log_pdf/{fam}', f'{fam}.log_pdf changes by {dv:.3e} under rescaling of its argument', dev=dv)
     spans = np.log10(np.abs(g).max() / np.abs(g).min())
-    if spans >= 50:
+    if spans >= 50 or case['gain'] == 'near_one':
         R.mark_nontrivial('dist', fam, case['gain'], D, case['lead'], case['saliency'])
     R.sample(dict(lane='dist', fam=fam, D=D, lead=case['lead'], gain=case['gain'], decades_spanned=float(spans), trainer_ratio=w, logpdf_dev=dv))
